@@ -37,10 +37,13 @@ func main() {
 // ---------------------------------------------------------------- helpers
 
 var (
-	reDelAdd    = regexp.MustCompile(`delete\(add, \w+\)`)
-	reDelUpdate = regexp.MustCompile(`delete\(update, \w+\)`)
-	reDelDel    = regexp.MustCompile(`delete\(del, \w+\)`)
-	reSettled   = regexp.MustCompile(`settled = append\(settled, \w+\)`)
+	reDelAdd      = regexp.MustCompile(`delete\(add, \w+\)`)
+	reDelUpdate   = regexp.MustCompile(`delete\(update, \w+\)`)
+	reDelDel      = regexp.MustCompile(`delete\(del, \w+\)`)
+	rePurgeExact  = regexp.MustCompile(`\w+ == makeKey\(\w+\.ID, queue\)`)
+	rePurgeSetDel = regexp.MustCompile(`storage\.del\[\w+\] = \w+`)
+	rePurgeDelUpd = regexp.MustCompile(`delete\(storage\.update, \w+\)`)
+	reSettled     = regexp.MustCompile(`settled = append\(settled, \w+\)`)
 )
 
 type problems struct{ list []string }
@@ -683,6 +686,7 @@ func genOpts(c *trlib.Ctx) error {
 	batchOrder := []string{"GAdd", "GUpdate", "GDel"}
 	confirmGuard := true
 	settledConfirmed, confirmCounts := true, true
+	purgeWaits, purgeCancelsAdds, purgeDropsUpdates, closePersists := true, true, true, true
 
 	if f, err := c.Parse("storage/storage_badger.go"); err != nil {
 		pb.add("storage_badger.go: %v", err)
@@ -933,6 +937,66 @@ func genOpts(c *trlib.Ctx) error {
 		} else {
 			pb.add("persist missing")
 		}
+		// PurgeQueue: serialised with persist (flushLock), cancels the queue's pending adds by a delete of the same key,
+		// drops its pending updates, then deletes the flushed keys by prefix
+		if pq := trlib.FuncDecl(f, "MsgStorage.PurgeQueue"); pq != nil {
+			src := nodeString(pq.Body)
+			persistSrc := ""
+			if fd := trlib.FuncDecl(f, "MsgStorage.persist"); fd != nil {
+				persistSrc = nodeString(fd.Body)
+			}
+			purgeWaits = strings.Contains(src, "storage.flushLock.Lock()") && strings.Contains(src, "defer storage.flushLock.Unlock()") &&
+				strings.Contains(persistSrc, "storage.flushLock.Lock()") && strings.Contains(persistSrc, "defer storage.flushLock.Unlock()")
+			purgeCancelsAdds, purgeDropsUpdates = false, false
+			var posPending, posDelete token.Pos
+			for _, st := range pq.Body.List {
+				if rs, ok := st.(*ast.RangeStmt); ok {
+					body := nodeString(rs.Body)
+					exact := rePurgeExact.MatchString(body)
+					switch trlib.ExprString(rs.X) {
+					case "storage.add":
+						if exact && rePurgeSetDel.MatchString(body) {
+							purgeCancelsAdds = true
+						} else {
+							pb.add("PurgeQueue: loop over storage.add is not `if key == makeKey(message.ID, queue) { storage.del[key] = message }`")
+						}
+					case "storage.update":
+						if exact && rePurgeDelUpd.MatchString(body) {
+							purgeDropsUpdates = true
+						} else {
+							pb.add("PurgeQueue: loop over storage.update is not `if key == makeKey(message.ID, queue) { delete(storage.update, key) }`")
+						}
+					default:
+						pb.add("PurgeQueue: loop over %s", trlib.ExprString(rs.X))
+					}
+					if posPending == 0 {
+						posPending = st.Pos()
+					}
+				}
+				if len(findCallsSel(st, "DeleteByPrefix")) > 0 {
+					posDelete = st.Pos()
+				}
+			}
+			if posDelete == 0 {
+				pb.add("PurgeQueue: no DeleteByPrefix at top level")
+			}
+			if posPending != 0 && posDelete != 0 && posPending > posDelete {
+				pb.add("PurgeQueue: the pending maps are handled after the engine delete")
+			}
+		} else {
+			pb.add("PurgeQueue missing")
+		}
+		// Close: one more persist before the engine is closed
+		if cl := trlib.FuncDecl(f, "MsgStorage.Close"); cl != nil {
+			src := nodeString(cl.Body)
+			pi, ci := strings.Index(src, "storage.persist()"), strings.Index(src, "storage.db.Close()")
+			closePersists = pi >= 0 && ci >= 0 && pi < ci
+			if ci < 0 {
+				pb.add("Close: no storage.db.Close()")
+			}
+		} else {
+			pb.add("Close missing")
+		}
 	}
 
 	var sb strings.Builder
@@ -966,6 +1030,7 @@ func genOpts(c *trlib.Ctx) error {
 	fmt.Fprintf(&sb, "Definition persist_confirm_after_batch : bool := %s.\n", trlib.CoqBool(confirmAfterBatch))
 	fmt.Fprintf(&sb, "Definition persist_confirm_guarded : bool := %s.\n", trlib.CoqBool(confirmGuard))
 	fmt.Fprintf(&sb, "(* adds cancelled by a del in the same window are remembered (`settled`) and confirmed after the batch *)\nDefinition persist_settled_confirmed : bool := %s.\n", trlib.CoqBool(settledConfirmed))
+	fmt.Fprintf(&sb, "(* PurgeQueue: serialised with persist by flushLock; cancels the queue's pending adds (del of the same key); drops its pending updates *)\nDefinition purge_waits_for_persist : bool := %s.\nDefinition purge_cancels_pending_adds : bool := %s.\nDefinition purge_drops_pending_updates : bool := %s.\n(* Close runs persist once more before closing the engine *)\nDefinition close_persists : bool := %s.\n", trlib.CoqBool(purgeWaits), trlib.CoqBool(purgeCancelsAdds), trlib.CoqBool(purgeDropsUpdates), trlib.CoqBool(closePersists))
 	fmt.Fprintf(&sb, "(* the relay is sent only when ConfirmMeta.Confirm() reports that this call completed the message *)\nDefinition persist_confirm_counts : bool := %s.\n", trlib.CoqBool(confirmCounts))
 
 	if len(pb.list) > 0 {
